@@ -132,3 +132,52 @@ fn bnd_groupings_fatal() {
     kani::cover!(r.is_ok() && has_fatal && n == 2 && fl == 8);
     core::mem::forget(frames);
 }
+
+// @harness id=bnd_groupings_two_fatal props=C13,C01,C02,C04 kind=bnd tier=thorough bound=lanes<=3,fatal=2 fns=validate_inner_lane_groupings stubs=alloc::fmt::format,slice::sort_unstable
+// Two known-fatal lanes (any numbers 0..31, possibly in the same group, possibly equal): the lanes present must
+// be exactly one of the three groups with its fatal lanes removed.
+#[kani::proof]
+#[kani::stub(alloc::fmt::format, stub_format_nonempty)]
+#[kani::stub(<[u8]>::sort_unstable, stub_sort_unstable)]
+#[kani::unwind(6)]
+fn bnd_groupings_two_fatal() {
+    let n: usize = kani::any();
+    kani::assume(n >= 1 && n <= 3);
+    let lanes: [u8; 3] = kani::any();
+    kani::assume(lanes[0] <= 8 && lanes[1] <= 8 && lanes[2] <= 8);
+    kani::assume((n < 2 || lanes[0] < lanes[1]) && (n < 3 || lanes[1] < lanes[2]));
+    let frames = [
+        LaneDataFrame::new(0x20 + lanes[0], Vec::new()),
+        LaneDataFrame::new(0x20 + lanes[1], Vec::new()),
+        LaneDataFrame::new(0x20 + lanes[2], Vec::new()),
+    ];
+    let fatal: [u8; 2] = kani::any();
+    kani::assume(fatal[0] < 32 && fatal[1] < 32);
+    let r = validate_inner_lane_groupings(&frames[..n], Some(&fatal[..]));
+    // spec: some group g whose members, minus the fatal lanes, are exactly the lanes present (in ascending order)
+    let mut ok = false;
+    let mut g = 0u8;
+    while g < 3 {
+        let mut k = 0usize; // members of the adjusted group matched so far
+        let mut good = true;
+        let mut m = 0u8;
+        while m < 3 {
+            let lane = 3 * g + m;
+            if lane != fatal[0] && lane != fatal[1] {
+                if k < n && lanes[k] == lane {
+                    k += 1;
+                } else {
+                    good = false;
+                }
+            }
+            m += 1;
+        }
+        if good && k == n {
+            ok = true;
+        }
+        g += 1;
+    }
+    assert!(r.is_ok() == ok, "[C13][C01][C02] IB lanes form one of the fixed groups minus its known-fatal lanes (two fatal lanes)");
+    kani::cover!(r.is_ok() && n == 1);
+    core::mem::forget(frames);
+}
